@@ -12,16 +12,42 @@ VERDICT_KINDS = (
 RESOURCE_KINDS = ('Resource limit (rlimit) exceeded', 'resource limit', 'timed out', 'timeout')
 
 
-def run_unit(unit, outdir, threads=8, seed=None, timeout=900):
+def run_unit(unit, outdir, threads=8, seed=None, timeout=420):
+    """Run the unit; if the only problems are solver resource limits (no verdict), retry under other Z3 random seeds:
+    a function is discharged if ANY run proves it (each successful run is a complete proof of that function)."""
+    r = _run_unit_once(unit, outdir, threads, seed, timeout)
+    tries = [dict(seed=seed, resource=[f['fn'] for f in r['resource']], verified=r['verified'], errors=r['errors'])]
+    pending = set(f['fn'] for f in r['resource'])
+    for s2 in (7, 23, 101):
+        if not pending or r['tool_error']:
+            break
+        r2 = _run_unit_once(unit, outdir, threads, s2, timeout)
+        if r2['tool_error']:
+            break
+        still = set(f['fn'] for f in r2['resource']) | set(f['fn'] for f in r2['failures'])
+        proved_now = pending - still
+        tries.append(dict(seed=s2, resource=[f['fn'] for f in r2['resource']], verified=r2['verified'], errors=r2['errors'], newly_proved=sorted(proved_now)))
+        if proved_now:
+            r['resource'] = [f for f in r['resource'] if f['fn'] not in proved_now]
+            r['verified'] += len(proved_now)
+            r['errors'] = max(0, r['errors'] - len(proved_now))
+            pending -= proved_now
+        r['smt_ms'] += r2.get('smt_ms', 0)
+        r['wall_s'] = round(r['wall_s'] + r2['wall_s'], 2)
+    r['seed_runs'] = tries
+    return r
+
+
+def _run_unit_once(unit, outdir, threads=8, seed=None, timeout=900):
     text = unit.text()
     os.makedirs(outdir, exist_ok=True)
     path = os.path.join(outdir, unit.name + '.rs')
     with open(path, 'w') as f:
         f.write(text)
     cmd = ['verus', path, '--output-json', '--time', '--multiple-errors', '30', '--rlimit', str(unit.rlimit),
-           '--num-threads', str(threads)] + list(unit.extra_args)
+           '--num-threads', str(threads), '-V', 'spinoff-all'] + list(unit.extra_args)   # every function in its own solver: isolation = stable proofs
     if seed is not None:
-        cmd += ['-V', 'smt-option=smt.random_seed=%d' % seed] if False else []
+        cmd += ['--smt-option', 'smt.random_seed=%d' % seed]
     t0 = time.time()
     try:
         p = subprocess.run(cmd, capture_output=True, text=True, timeout=timeout, cwd=outdir)
